@@ -206,6 +206,9 @@ doc_strategy = st.fixed_dictionaries({
     "cell_a": st.tuples(st.sampled_from(CELL_VARIANTS), st.sampled_from(CELL_ARCHES)),
     "cell_b": st.tuples(st.sampled_from(CELL_VARIANTS), st.sampled_from(CELL_ARCHES)),
     "different_checksums": st.booleans(),
+    # older documents keep source images in a "src" section that the reader re-files under the variant's binary arches: the second
+    # image of the pair sits there, and the section is listed FIRST among the variant's arches
+    "src_first": st.booleans(),
 })
 
 
@@ -219,8 +222,18 @@ def doc_case(case):
     b["path"] = a["path"] + ".second"
     b["checksums"] = {"sha256": "ZZZZZZ"} if case["different_checksums"] else dict(a["checksums"])
     images = {}
-    for rec, (variant, arch) in ((a, case["cell_a"]), (b, case["cell_b"])):
-        images.setdefault(variant, {}).setdefault(arch, []).append(imm.rec_doc(rec))
+    expected_n = 2
+    if case.get("src_first") and vt(case["version"]) <= (1, 1):
+        (va, aa), (vb, _) = case["cell_a"], case["cell_b"]
+        if va != vb:
+            images[va] = {aa: [imm.rec_doc(a)]}                                  # read first
+            images[vb] = {"src": [imm.rec_doc(b)], "x86_64": []}                  # then the source image, re-filed under x86_64
+        else:
+            images[vb] = {"src": [imm.rec_doc(a), imm.rec_doc(b)], "x86_64": []}  # both are source images of one variant
+        expected_n = 2
+    else:
+        for rec, (variant, arch) in ((a, case["cell_a"]), (b, case["cell_b"])):
+            images.setdefault(variant, {}).setdefault(arch, []).append(imm.rec_doc(rec))
     header = {"version": case["version"]}
     if vt(case["version"]) >= (1, 1):
         header["type"] = "productmd.images"
@@ -232,13 +245,13 @@ def doc_case(case):
         try:
             im.loads(json.dumps(doc))
         except Exception:  # noqa  ("rejected on load": the exception type is not constrained)
-            return {"nontrivial": True, "labels": ["rejected", "v" + case["version"]]}
+            return {"nontrivial": True, "labels": ["rejected", "v" + case["version"]] + (["src-section-first"] if case.get("src_first") and vt(case["version"]) <= (1, 1) else [])}
         raise Violation("colliding-document-loaded", "a %s document with two images of equal identity %r and different checksums was loaded" % (
             case["version"], ident(a)))
     must("load-legal-document", im.loads, json.dumps(doc))
     n = sum(len(im.images[v][x]) for v in im.images for x in im.images[v])
-    check(n == 2, "image-lost", "legal %s document with 2 images loaded as %d" % (case["version"], n))
-    return {"nontrivial": case["different_checksums"], "labels": ["accepted", "v" + case["version"]]}
+    check(n == expected_n, "image-lost", "legal %s document: %d filed images expected, %d found" % (case["version"], expected_n, n))
+    return {"nontrivial": case["different_checksums"], "labels": ["accepted", "v" + case["version"]] + (["src-section-first"] if case.get("src_first") and vt(case["version"]) <= (1, 1) else [])}
 
 
 # ---- identify_image ---------------------------------------------------------------------------------------------------
